@@ -1,5 +1,6 @@
 import MgpuProofs.C07Alloc
 import MgpuProofs.C07Disagree
+import MgpuProofs.C07Release
 set_option linter.unusedVariables false
 set_option linter.unusedSimpArgs false
 /-! # C07 — property theorems, second layer: one refinement statement for both register stores
@@ -165,6 +166,27 @@ example : WindowsDisjoint ⟨0, 64, 0, 0, 0, 0, 0, 0, 0⟩ ⟨0, 0, 0, 32, 8, 0,
   · simp only at a1 a2; omega
   · have := h.1; simp only at this; omega
 
+/-- **Register release inside the run.** Extend the access sequences by `rel` steps
+(`SchedulerImpl.resetRegisterValue` when a wavefront ends): on the abstract map a release sets every
+SGPR/VGPR cell of that wavefront to 0 and keeps its special registers (`clearRegs`); the timing
+store refines the extended machine for every interleaving of accesses and releases of all resident
+wavefronts — a release never disturbs a co-resident wavefront whose windows are byte-disjoint, and
+never panics. -/
+theorem timing_run_with_release_refines (ops : List (Nat × GOp)) (t : TimingRF) (hA : Alloc t)
+    (hok : GOkR t ops) :
+    (t.execR ops).2 = ((absG t).execR ops).2 ∧ absG (t.execR ops).1 = ((absG t).execR ops).1 ∧
+    SameLayout t (t.execR ops).1 ∧ Alloc (t.execR ops).1 :=
+  timing_execR_refines ops t hA hok
+
+example : GOkR t0 [(0, .acc (.w ⟨.s 4, 2, 0⟩ 7)), (0, .rel), (1, .acc (.r ⟨.vcclo, 2, 0⟩)), (0, .acc (.r ⟨.s 4, 0, 0⟩))] ∧
+    clearRegs (fun _ => 5) (.s 4) = 0 ∧ clearRegs (fun _ => 5) .vccHi = 5 := by
+  refine ⟨fun p hp => ?_, rfl, rfl⟩
+  simp only [List.mem_cons, List.mem_nil_iff, or_false] at hp
+  rcases hp with rfl | rfl | rfl | rfl <;>
+    refine ⟨by decide, ?_⟩ <;>
+    simp [GOp.Ok, Op.Ok, Acc.Supported, cnt, t0, TimingRF.wf, width_s, width_v, Acc.width, Acc.cells, CellId.bytes] <;>
+    decide
+
 /-! ## the offsets come from the resource allocator -/
 
 /-- **Every reachable state of the shipped CU's resource allocator hands out byte-disjoint register
@@ -294,6 +316,30 @@ theorem read_faults_agree_every_operand_refuted : ¬ read_faults_agree_every_ope
   have := h t1 (t1.wf 0) 364 9 0
   rw [w1.1, w1.2] at this
   cases this
+
+/-- **`ReadOperand` and `WriteOperand`: the complete lists of disagreements about faulting.**
+`ReadOperand`: the eight special registers never fault in either store; an SGPR/VGPR operand is a
+disagreement exactly when one bounds test trips and the other does not (the emulator's
+`readFromRegFile` looks at one or two registers whatever the count and tests the architectural
+limits, timing reads the whole range and tests only the end of the physical file); an unsupported
+register with an operand longer than 64 bytes panics differently. `WriteOperand` (any value):
+`exec_hi` with count 2 (emulator "not supported", timing writes `exec`), and one/two-register
+SGPR/VGPR operands with exactly one bounds test tripping; everything else faults identically
+(in particular every operand wider than 8 bytes panics in both). -/
+theorem operand_fault_disagreements (t : TimingRF) (w : TWf) (r rc lane : Nat) :
+    (emuReadOperandFault r rc lane ≠ timReadFault t w r rc lane ↔
+      (isSReg r = true ∧ ¬ (emuSOutR r rc ↔ timSOut t w r rc)) ∨
+      (isVReg r = true ∧ ¬ (emuVOutR r rc lane ↔ timVOut t w r rc lane)) ∨
+      (isSReg r = false ∧ isVReg r = false ∧ (isSpecial7 r || r == R_EXECHI) = false ∧ 64 < numBytes r rc)) ∧
+    (emuWriteOperandFault r rc lane ≠ timWriteOperandFault t w r rc lane ↔
+      (r = R_EXECHI ∧ rc = 2) ∨
+      (isSReg r = true ∧ cnt rc ≤ 2 ∧ ¬ (102 < regIndex r + cnt rc ↔ timSOut t w r rc)) ∨
+      (isVReg r = true ∧ cnt rc ≤ 2 ∧ ¬ (16384 < lane * 256 + regIndex r + cnt rc ↔ timVOut t w r rc lane))) :=
+  ⟨read_operand_fault_disagree t w r rc lane, write_operand_fault_disagree t w r rc lane⟩
+
+example : emuReadOperandFault 358 4 0 = none ∧ emuReadFault 358 4 0 = some .bounds ∧
+    emuReadOperandFault 359 2 0 = some .bounds ∧ emuWriteOperandFault 362 2 0 = some .unsupported ∧
+    emuWriteOperandFault 359 2 0 = some .bounds := by decide +kernel
 
 /-- **Inside the supported subset nothing faults, in either store** (so the fault predicates and the
 refinement theorems partition the operand space consistently). -/
